@@ -7,6 +7,7 @@ mod frags;
 mod lift;
 mod ext;
 mod eqord;
+mod robust;
 mod sat;
 mod desc;
 mod psbt;
@@ -46,6 +47,7 @@ fn main() {
         "eqord" => eqord::run(&args[2..]),
         "translate" => translate::run(&args[2..]),
         "policy" => policy::run(&args[2..]),
+        "robust" => robust::run(&args[2..]),
         other => {
             eprintln!("unknown engine {}", other);
             std::process::exit(2);
